@@ -80,18 +80,15 @@ def chk_dec(c: bytes, pc: int) -> bool:
     return insn_ok(Contract(c).decode_instruction(pc), c, pc)
 
 
-def chk_walk(c: bytes) -> bool:
-    """one Contract object: jump destinations, then every pc in range(len+2) decoded twice (instruction cache), then the
-    jump destinations again"""
+def chk_cache(c: bytes, pc: int) -> bool:
+    """one Contract object: jump destinations, the same pc decoded twice (instruction cache), jump destinations again"""
     k = Contract(c)
     want = ref_jumpdests(c)
     if k.valid_jumpdests() != want:
         return False
-    for _ in range(2):
-        for pc in range(len(c) + 2):
-            if not insn_ok(k.decode_instruction(pc), c, pc):
-                return False
-    return k.valid_jumpdests() == want and len(k) == len(c)
+    i1 = k.decode_instruction(pc)
+    i2 = k.decode_instruction(pc)
+    return i1 is i2 and insn_ok(i1, c, pc) and k.valid_jumpdests() == want and len(k) == len(c)
 
 
 def chk_chain(c: bytes) -> bool:
@@ -129,13 +126,17 @@ def chk_slice2(c: bytes, d: bytes, start: int, size: int) -> bool:
     return len(got) == size and _as_bytes(got) == ref_read(c + d, start, size)
 
 
-def chk_two_chunks(c: bytes, d: bytes, pc: int) -> bool:
-    """decode / jump destinations / byte reads when the concrete prefix chunk is followed by a second concrete chunk: the
-    fast path ends at len(c) although the code continues"""
+def chk_two_jd(c: bytes, d: bytes) -> bool:
+    """jump destinations when the concrete prefix chunk is followed by a second concrete chunk: the fast path ends at
+    len(c) although the code continues (a PUSH may straddle the chunk border)"""
+    k = Contract(ByteVec([c, d]))
+    return k.valid_jumpdests() == ref_jumpdests(c + d) and len(k) == len(c) + len(d)
+
+
+def chk_two_dec(c: bytes, d: bytes, pc: int) -> bool:
     k = Contract(ByteVec([c, d]))
     whole = c + d
-    return (k.valid_jumpdests() == ref_jumpdests(whole) and insn_ok(k.decode_instruction(pc), whole, pc)
-            and k[pc] == ref_byte(whole, pc) and len(k) == len(whole))
+    return insn_ok(k.decode_instruction(pc), whole, pc) and k[pc] == ref_byte(whole, pc)
 
 
 def mk_push(pre: bytes, op: int, data: bytes) -> bytes:
@@ -176,15 +177,25 @@ def feat_dec(c: bytes, pc: int) -> bool:
     return nxt is not None and nxt > len(c) and operand is not None and operand > 0
 
 
+def feat_pushjd(pre: bytes, op: int, data: bytes) -> bool:
+    """complete PUSH whose data holds a JUMPDEST byte, followed by a genuine JUMPDEST, after a genuine JUMPDEST"""
+    n = op - PUSH1 + 1
+    return len(data) == n + 1 and data[n] == JUMPDEST and data[0] == JUMPDEST and pre == bytes([JUMPDEST]) and n > 8
+
+
 def feat_push(pre: bytes, op: int, data: bytes) -> bool:
     n = op - PUSH1 + 1
-    return 0 < len(data) < n and data[0] != 0 and len(pre) > 0
+    return 0 < len(data) < n and data[0] != 0
 
 
 # --------------------------------------------------------------------------- concrete replay (under /venv/bin/python)
-def observe(family: str, args: tuple) -> dict:
-    """what the real code and the reference say on a concrete witness"""
+def observe(family: str, args: tuple, body: str = "") -> dict:
+    """what the real code and the reference say on a concrete witness (`body` carries a pc baked into the condition)"""
+    import re
+
     out = {"family": family, "args": [a.hex() if isinstance(a, bytes) else a for a in args]}
+    m = re.search(r", (\d+)\)$", body or "")
+    baked = int(m.group(1)) if m else None
 
     def insn(k, pc):
         try:
@@ -198,18 +209,20 @@ def observe(family: str, args: tuple) -> dict:
         w, operand, nxt = ref_decode(c, pc)
         return {"opcode": w, "next_pc": nxt, "operand": None if operand is None else hex(operand)}
 
+    def jd(k):
+        try:
+            return sorted(k.valid_jumpdests())
+        except Exception as e:  # noqa: BLE001
+            return f"{type(e).__name__}: {e}"
+
     try:
-        if family in ("jd", "walk", "chain"):
+        if family in ("jd", "chain", "cache", "dec"):
             c = args[0]
-            out["halmos_jumpdests"] = sorted(Contract(c).valid_jumpdests())
-            out["evm_jumpdests"] = sorted(ref_jumpdests(c))
-            if family != "jd":
-                k = Contract(c)
-                out["halmos_insns"] = [insn(k, pc) for pc in range(len(c) + 2)]
-                out["evm_insns"] = [refinsn(c, pc) for pc in range(len(c) + 2)]
-        elif family == "dec":
-            c, pc = args
-            out["halmos_insn"], out["evm_insn"] = insn(Contract(c), pc), refinsn(c, pc)
+            k = Contract(c)
+            out["halmos_jumpdests"], out["evm_jumpdests"] = jd(k), sorted(ref_jumpdests(c))
+            pcs = range(len(c) + 2) if baked is None else [baked]
+            out["halmos_insns"] = {pc: insn(k, pc) for pc in pcs}
+            out["evm_insns"] = {pc: refinsn(c, pc) for pc in pcs}
         elif family == "getitem":
             c, x = args
             out["halmos"], out["evm"] = Contract(c)[x], ref_byte(c, x)
@@ -221,23 +234,21 @@ def observe(family: str, args: tuple) -> dict:
             out["halmos"] = str(Contract(ByteVec([c, d])).slice(start, size).unwrap())
             out["evm"] = str(ref_read(c + d, start, size))
         elif family == "two":
-            c, d, pc = args
+            c, d = args
             k = Contract(ByteVec([c, d]))
-            out["halmos_jumpdests"], out["evm_jumpdests"] = sorted(k.valid_jumpdests()), sorted(ref_jumpdests(c + d))
-            out["halmos_insn"], out["evm_insn"] = insn(k, pc), refinsn(c + d, pc)
+            out["halmos_jumpdests"], out["evm_jumpdests"] = jd(k), sorted(ref_jumpdests(c + d))
+            pcs = range(len(c + d) + 2) if baked is None else [baked]
+            out["halmos_insns"] = {pc: insn(k, pc) for pc in pcs}
+            out["evm_insns"] = {pc: refinsn(c + d, pc) for pc in pcs}
         elif family.startswith("push"):
             pre, op, data = args
             c = mk_push(pre, op, data)
             k = Contract(c)
             out["code"] = c.hex()
-            out["halmos_jumpdests"], out["evm_jumpdests"] = sorted(k.valid_jumpdests()), sorted(ref_jumpdests(c))
+            out["halmos_jumpdests"], out["evm_jumpdests"] = jd(k), sorted(ref_jumpdests(c))
             pcs = [len(pre), len(pre) + op - PUSH1 + 2, len(c)]
-            out["halmos_insns"] = [insn(k, pc) for pc in pcs]
-            out["evm_insns"] = [refinsn(c, pc) for pc in pcs]
+            out["halmos_insns"] = {pc: insn(k, pc) for pc in pcs}
+            out["evm_insns"] = {pc: refinsn(c, pc) for pc in pcs}
     except Exception as e:  # noqa: BLE001
         out["exception"] = f"{type(e).__name__}: {e}"
     return out
-
-
-CHECKS = {"jd": chk_jd, "dec": chk_dec, "walk": chk_walk, "chain": chk_chain, "getitem": chk_getitem, "slice": chk_slice,
-          "slice2": chk_slice2, "two": chk_two_chunks, "push": chk_push, "pushjd": chk_push_jd, "pushdec": chk_push_dec}
